@@ -556,11 +556,22 @@ def reserved_converters(index: RepoIndex) -> Dict[str, ast.AST]:
         if e.kind == 'store' and isinstance(e.target, ast.Subscript) and \
                 src(e.target.value) == dp and len(e.loops) == 1 and \
                 isinstance(e.loops[0][0], ast.Tuple) and len(e.loops[0][0].elts) == 2 and \
-                isinstance(e.loops[0][1], ast.Name):
+                (isinstance(e.loops[0][1], ast.Name) or (
+                    isinstance(e.loops[0][1], ast.Call) and
+                    isinstance(e.loops[0][1].func, ast.Name) and not e.loops[0][1].args
+                    and not e.loops[0][1].keywords)):
             kv, cv = (src(t) for t in e.loops[0][0].elts)
             if src(e.target.slice) != kv or src(e.value) != f'{cv}({dp}[{kv}])':
                 continue
-            tb = f.module.assigns.get(e.loops[0][1].id, [])
+            it_ = e.loops[0][1]
+            if isinstance(it_, ast.Name):
+                tb = f.module.assigns.get(it_.id, [])
+            else:
+                # a table built when needed: `def _converters(): return ((key, conv), ..)`
+                from ..inline import pure_body_expr
+                hf = f.module.functions.get(it_.func.id)
+                be = pure_body_expr(hf.node) if hf is not None else None
+                tb = [be] if be is not None else []
             if len(tb) != 1 or not isinstance(tb[0], (ast.Tuple, ast.List)):
                 continue
             for pair in tb[0].elts:
@@ -633,9 +644,13 @@ def composite_parts(index: RepoIndex, rep, rule: str) -> None:
                      ('reward_functions', 'factory_reward_function'),
                      ('terminating_functions', 'factory_terminating_function')):
         e = conv.get(key)
-        if e is None:
-            raise AnalysisError(f'process_reserved_keys: no converter found for `{key}`')
         line = index.func(FACTORY, 'process_reserved_keys').node.lineno
+        if e is None:
+            # another way of spelling the conversion table: no verdict from this rule (the
+            # shipped configurations are still checked entry by entry, C17.R3)
+            rep.undecided(rule, f'{FACTORY}:process_reserved_keys:{key}',
+                          'converter of this key not found in a spelling the rule reads')
+            continue
         x = e
         listed = False
         while isinstance(x, ast.Call) and src(x.func) in ('list', 'tuple') and len(x.args) == 1:
@@ -679,8 +694,9 @@ def composite_parts(index: RepoIndex, rep, rule: str) -> None:
                           f'component twice (different parameters) loses one of its parts')
             continue
         if fn_ is None:
-            raise AnalysisError(f'process_reserved_keys: converter of `{key}` '
-                                f'(`{src(e)[:80]}`) outside the grammar')
+            rep.undecided(rule, f'{FACTORY}:process_reserved_keys:{key}',
+                          f'converter `{src(e)[:80]}` outside the grammar')
+            continue
         rep.check(fn_ == fac and elt_ok and src(it_) == 'V', rule, FACTORY,
                   'process_reserved_keys', line, src(e)[:120],
                   f'`{key}` is not one `{fac}(entry)` per configured entry, in order',
